@@ -177,13 +177,34 @@ Vals(sc, t, d, perms) ==
 \* --------------------------------------------------------------- Enc
 \* json_serializer.rst "Primitive Types", "Struct", "Enumerated Subtypes",
 \* "Union", "Nullable".
-RECURSIVE Enc(_, _, _, _)
-EncFields(sc, c, f, perms) ==
+\* lang_ref "Redaction": with redaction requested the value of a field carrying a
+\* redactor -- directly, or because its type is an alias marked at its definition --
+\* is replaced item by item (list items, map values) by a redacted rendering.
+JRed(red, v) == [k |-> "jred", red |-> red, v |-> v]
+RedactVal(red, v) ==
+    CASE v.k = "list" -> JArr([i \in DOMAIN v.items |-> JRed(red, v.items[i])])
+      [] v.k = "map"  -> JObj([key \in DOMAIN v.m |-> JRed(red, v.m[key])])
+      [] OTHER        -> JRed(red, v)
+\* the redactor a type reference carries by being (an alias of) a marked alias
+RECURSIVE RedOf(_, _)
+RedOf(sc, t) ==
+    IF t.k = "ref" /\ sc[t.n].k = "alias"
+    THEN IF sc[t.n].red # "" THEN sc[t.n].red
+         ELSE IF sc[t.n].t.k = "ref" THEN RedOf(sc, sc[t.n].t) ELSE ""
+    ELSE ""
+
+RECURSIVE EncX(_, _, _, _, _)
+EncMember(sc, m, v, perms, rd) ==     \* a struct field or union tag m with value v
+    IF rd /\ m.red # "" /\ v.k # "none" THEN RedactVal(m.red, v) ELSE EncX(sc, m.t, v, perms, rd)
+EncFields(sc, c, f, perms, rd) ==
     LET fs == Visible(AllFields(sc, c), perms)
         ns == SeqNames(fs) \cap DOMAIN f
-    IN  [n \in ns |-> Enc(sc, FieldByName(fs, n).t, f[n], perms)]
-Enc(sc, t, v, perms) ==
-    CASE t.k = "nullable" -> IF v.k = "none" THEN JNull ELSE Enc(sc, t.e, v, perms)
+        missing == \E i \in DOMAIN fs : IsRequiredField(sc, fs[i]) /\ fs[i].n \notin DOMAIN f
+    IN  IF missing THEN ("!" :> EncErr)
+        ELSE [n \in ns |-> EncMember(sc, FieldByName(fs, n), f[n], perms, rd)]
+EncX(sc, t, v, perms, rd) ==
+    IF rd /\ RedOf(sc, t) # "" /\ v.k # "none" THEN RedactVal(RedOf(sc, t), v) ELSE
+    CASE t.k = "nullable" -> IF v.k = "none" THEN JNull ELSE EncX(sc, t.e, v, perms, rd)
       [] t.k = "void"   -> JNull
       [] t.k = "int"    -> JInt(v.r)
       [] t.k = "float"  -> JFloat(v.r)
@@ -191,19 +212,19 @@ Enc(sc, t, v, perms) ==
       [] t.k = "bytes"  -> JB64(v)
       [] t.k = "bool"   -> JBool(v.b)
       [] t.k = "ts"     -> JTs(v, t.fmt)
-      [] t.k = "list"   -> JArr([i \in DOMAIN v.items |-> Enc(sc, t.e, v.items[i], perms)])
-      [] t.k = "map"    -> JObj([key \in DOMAIN v.m |-> Enc(sc, t.v, v.m[key], perms)])
+      [] t.k = "list"   -> JArr([i \in DOMAIN v.items |-> EncX(sc, t.e, v.items[i], perms, rd)])
+      [] t.k = "map"    -> JObj([key \in DOMAIN v.m |-> EncX(sc, t.v, v.m[key], perms, rd)])
       [] t.k = "ref"    ->
            LET d == sc[t.n] IN
-           CASE d.k = "alias"  -> Enc(sc, d.t, v, perms)
+           CASE d.k = "alias"  -> EncX(sc, d.t, v, perms, rd)
              [] d.k = "struct" ->
                   IF d.subs = <<>>
                   THEN \* "A struct is represented as a JSON object. Each
                        \*  specified field has a key" / unset optional omitted
-                       JObj(EncFields(sc, t.n, v.f, perms))
+                       JObj(EncFields(sc, t.n, v.f, perms, rd))
                   ELSE \* "includes a .tag key to distinguish the type"
                        JObj((TagKey :> JTagStr(TagOfSub(sc, t.n, v.c))) @@
-                            EncFields(sc, v.c, v.f, perms))
+                            EncFields(sc, v.c, v.f, perms, rd))
              [] d.k = "union"  ->
                   LET tg == TagByName(sc, v.c, v.tag)
                       mt == Unalias(sc, tg.t)
@@ -211,12 +232,13 @@ Enc(sc, t, v, perms) ==
                   IN  IF ~(tg.omit = "" \/ tg.omit \in perms) THEN EncErr
                       ELSE IF mt.k = "void" \/ v.v.k = "none"
                       THEN JObj(TagKey :> JTagStr(v.tag))
-                      ELSE IF IsPlainStruct(sc, ut)
+                      ELSE IF IsPlainStruct(sc, ut) /\ ~(rd /\ RedOf(sc, tg.t) # "")
                       THEN \* "Union members that are ordinary structs
                            \*  serialize as the struct with the addition of
                            \*  a .tag key"
-                           JObj((TagKey :> JTagStr(v.tag)) @@ EncFields(sc, ut.n, v.v.f, perms))
-                      ELSE JObj((TagKey :> JTagStr(v.tag)) @@ (v.tag :> Enc(sc, tg.t, v.v, perms)))
+                           JObj((TagKey :> JTagStr(v.tag)) @@ EncFields(sc, ut.n, v.v.f, perms, rd))
+                      ELSE JObj((TagKey :> JTagStr(v.tag)) @@ (v.tag :> EncMember(sc, tg, v.v, perms, rd)))
+Enc(sc, t, v, perms) == EncX(sc, t, v, perms, FALSE)
 
 RECURSIVE HasEncErr(_)
 HasEncErr(d) ==
@@ -225,6 +247,7 @@ HasEncErr(d) ==
       [] d.k = "jobj"   -> \E key \in DOMAIN d.m : HasEncErr(d.m[key])
       [] OTHER          -> FALSE
 Encode(sc, t, v, perms) == LET d == Enc(sc, t, v, perms) IN IF HasEncErr(d) THEN EncErr ELSE d
+EncodeX(sc, t, v, perms, rd) == LET d == EncX(sc, t, v, perms, rd) IN IF HasEncErr(d) THEN EncErr ELSE d
 
 \* --------------------------------------------------------------- Dec
 \* The reference validator/decoder for documents (Appendix B of DESIGN).
